@@ -17,7 +17,8 @@ RULE = (
     "positions, in order - so a write through a node handle shows in the tree and in every attached view, while a "
     "detached object or a copy has equal content at creation and never changes with, or changes, the original; a branch's "
     "segments are its consecutive node pairs, a tree's segments its (parent, child) pairs in node order; the adjacency "
-    "matrix has exactly the parent -> child entries; out-of-range ints raise IndexError. Invariant after every step: all "
+    "matrix has exactly the parent -> child entries; a Compartments collection assembled from compartments of any owners "
+    "(tree segments, segments of several branches, detached ones) reports per row its own compartment's two nodes; out-of-range ints raise IndexError. Invariant after every step: all "
     "owners equal their models and all views read what the model says. Non-trivial: a history with a write, a detach or "
     "copy taken before a later write, and a read of the segments of an attached branch of >= 3 nodes whose ids are not "
     "0..k."
@@ -66,7 +67,7 @@ class _State:
         self.owners = [_Owner(tree, cols, "tree")]
         self.views = []
         self.flags = {"write": False, "detached_then_write": False, "have_detached": False, "attached_branch_segments": False,
-                      "negative": False, "slice": False}
+                      "negative": False, "slice": False, "mixed_collection": False}
 
 
 def start(init, ctx):
@@ -230,6 +231,35 @@ def apply(s, name, args, ctx):
                           lambda: f"segment {k} of branch at positions {v.idx}: {col} = {got.tolist()}, expected {want}")
         if m >= 2:
             ctx.check(segs.xyz().shape == (m - 1, 2, 3), "branch/segments-shape", lambda: f"{segs.xyz().shape}")
+            for col in ("x", "r", "type", "tag"):
+                want = np.array([[o.cols[col][v.idx[k]], o.cols[col][v.idx[k + 1]]] for k in range(m - 1)])
+                ctx.check(np.array_equal(segs.get_ndata(col), want), "branch/segments-collection-values",
+                          lambda: f"{col}: {segs.get_ndata(col).tolist()} vs {want.tolist()}")
+            # keep one or two of them as views of their own: they stay attached to the branch
+            for k in sorted({args % (m - 1), (args // 3) % (m - 1)}):
+                _add_view(s, ctx, _View("compartment", segs[k], v.owner, [v.idx[k], v.idx[k + 1]], v.from_tree))
+    elif name == "collection":
+        # a Compartments collection assembled by the caller from compartments of any owners (tree segments, segments
+        # of different branches, detached ones): each row reports its own compartment's two nodes
+        comps = [v for v in s.views if v.kind == "compartment"]
+        if not comps:
+            return
+        k = 1 + args[1] % 4
+        members = [comps[(args[0] + 7 * j) % len(comps)] for j in range(k)]
+        from swcgeom.core import Compartments
+
+        coll = ctx.lib("Compartments([...])", Compartments, [m_.real for m_ in members])
+        if len({id(m_.real.attach) for m_ in members}) > 1:
+            s.flags["mixed_collection"] = True
+        ctx.check(len(coll) == k, "collection/length", f"{len(coll)} vs {k}")
+        for col in ("x", "y", "z", "r", "type", "tag", "w"):
+            want = np.array([[s.owners[m_.owner].cols[col][m_.idx[0]], s.owners[m_.owner].cols[col][m_.idx[1]]] for m_ in members])
+            got = ctx.lib("collection.get_ndata", coll.get_ndata, col)
+            ctx.check(np.array_equal(got, want), "collection/each-row-reads-its-own-compartment",
+                      lambda: f"{col}: {np.asarray(got).tolist()} vs {want.tolist()}")
+        wantx = np.stack([np.array([[s.owners[m_.owner].cols[c][m_.idx[0]], s.owners[m_.owner].cols[c][m_.idx[1]]] for m_ in members])
+                          for c in "xyz"], axis=2)
+        ctx.check(np.array_equal(coll.xyz(), wantx), "collection/xyz", "")
     elif name == "index_path":
         ps = [v for v in s.views if v.kind in ("path", "branch", "compartment")]
         if not ps:
@@ -344,7 +374,7 @@ def invariant(s, ctx):
 
 def finish(s, ctx):
     f = s.flags
-    for k in ("write", "detached_then_write", "attached_branch_segments", "negative", "slice"):
+    for k in ("write", "detached_then_write", "attached_branch_segments", "negative", "slice", "mixed_collection"):
         if f[k]:
             ctx.cls("history:" + k)
     n = len(s.t["parents"])
@@ -355,8 +385,8 @@ def finish(s, ctx):
 SUBCHECKS = [
     Machine("views", init_strategy,
             {"node": I2, "slice": SL, "relatives": I2, "path": I2, "branch": I2, "tree_segments": I1, "branch_segments": I1,
-             "index_path": I2, "read": I1, "write": WR, "write_owner": WR, "detach": I1, "copy": I1, "adjacency": I1},
+             "index_path": I2, "collection": I2, "read": I1, "write": WR, "write_owner": WR, "detach": I1, "copy": I1, "adjacency": I1},
             start, apply, invariant, finish, quick=1200, thorough=8000, steps_quick=40, steps_thorough=80, shards_quick=8,
             required={"history:write": 150, "history:detached_then_write": 100, "history:attached_branch_segments": 100,
-                      "history:negative": 60, "history:slice": 60}),
+                      "history:negative": 60, "history:slice": 60, "history:mixed_collection": 60}),
 ]
